@@ -48,8 +48,9 @@ def verify_keys(P, R, keys, verbose=True):
             if o.status == "dead-exit":
                 o.status = "discharged"
         bad = [o for o in obs if o.status not in ("discharged", "trivial")]
+        dead = sorted(f"{k[0].split(':')[-1]}@{k[1]}" for k, v in eng.handlers_seen.items() if not v)
         if verbose:
-            print(f"== {key}: {len(obs)} obligations, gen {tg:.2f}s, paths {eng.paths_explored}, undischarged {len(bad)}")
+            print(f"== {key}: {len(obs)} obligations, gen {tg:.2f}s, paths {eng.paths_explored}, undischarged {len(bad)}" + (f", except clauses never entered: {dead}" if dead else ""))
             for o in obs:
                 if o.status not in ("discharged", "trivial") or verbose > 1:
                     print(f"   {o.status:10s} {o.backend:5s} {o.time_s:6.2f}s {o.ident}  {o.detail[:300] if o.status not in ('discharged','trivial') else ''}")
